@@ -47,7 +47,8 @@ ASSUMPTIONS = [
 ]
 FRAGMENTS = ["double", "double4", "double16", "cdouble", "doubled", "mydouble",
              "1.0", "1.", "0.5", ".5", "1e3", "1.5e-3", "3.f", "1.0L", "x1e3", "a.b", "s.e3", "0x1.8p3",
-             "37", "0", "03.05.67", "sin", "pow", "mysin", '"1.0 double"', "/* 1.0 double */", "// 2.5"]
+             "37", "0", "03.05.67", "sin", "pow", "mysin", '"1.0 double"', "/* 1.0 double */", "// 2.5",
+             '"a \\"double\\" 0.5"']        # a string literal containing escaped quotes
 SEPS_ALL = ["", " ", ",", "(", ")", "*", "\n", ";", "-", "+"]
 SEPS_3 = [" ", ",", "("]
 SEPS_2 = [" ", ","]
